@@ -320,4 +320,299 @@ Proof.
   apply IH. destruct (hstep psize who s) eqn:E; [eapply hstep_inv; eassumption|exact HI].
 Qed.
 
+(** ** What the invariant gives *)
+
+(** No access to the shared buffer by the side that does not own it, no slice panic in Read. *)
+Theorem inv_safe s : Inv s -> hfail s = None.
+Proof. intros H. exact (inv_fail s H). Qed.
+
+(** The bytes returned by Read so far are a prefix of the bytes written. *)
+Theorem inv_prefix s : Inv s -> exists rest, r_out s ++ rest = total.
+Proof. intros H. eexists. exact (inv_data s H). Qed.
+
+Lemma final_out s : Inv s -> (rp s = RFin \/ rp s = RDone) -> r_out s = total.
+Proof.
+  intros [Hf Hl Hd Hc Hr] Hfin. unfold ctl in Hc.
+  assert (Hx : (wp s = WFinWait \/ wp s = WDone) /\ bufLevel s <= offset s).
+  { destruct (owner s).
+    - destruct Hc as (_ & Hrr & _). unfold rctlA in Hrr. destruct Hfin as [E|E]; rewrite E in Hrr; contradiction.
+    - destruct Hc as [(_ & Hrr & _)|[(? & ? & ?)|(? & ? & ?)]]; [|tauto|tauto].
+      unfold rctlB in Hrr. destruct Hfin as [E|E]; rewrite E in Hrr; contradiction. }
+  destruct Hx as [Hw Hb]. unfold pending, wunwritten in Hd. rewrite takeZ_nonpos in Hd by lia.
+  destruct Hw as [E|E]; rewrite E in Hd; cbn [app] in Hd; rewrite app_nil_r in Hd; exact Hd.
+Qed.
+
+(** EOF is returned only after the last byte, and then exactly once, as the last return value. *)
+Theorem eof_after_last_byte s : Inv s -> In (-1) (r_rets s) ->
+  r_out s = total /\ exists l, r_rets s = l ++ [-1] /\ nonneg l.
+Proof.
+  intros HI Hin. pose proof (inv_rets s HI) as Hr. unfold rets_ok in Hr.
+  destruct (rp s) eqn:Er;
+    try (exfalso; unfold nonneg in Hr; rewrite Forall_forall in Hr; specialize (Hr _ Hin); lia).
+  - split; [apply final_out; auto|exact Hr].
+  - split; [apply final_out; auto|exact Hr].
+Qed.
+
+Theorem terminal_complete s : Inv s -> hterminal s = true ->
+  r_out s = total /\ hfail s = None /\ exists l, r_rets s = l ++ [-1] /\ nonneg l.
+Proof.
+  intros HI Ht. unfold hterminal in Ht. destruct (wp s) eqn:Ew; try discriminate. destruct (rp s) eqn:Er; try discriminate.
+  split; [apply final_out; auto|]. split; [apply inv_safe; assumption|].
+  pose proof (inv_rets s HI) as Hr. unfold rets_ok in Hr. rewrite Er in Hr. exact Hr.
+Qed.
+
+(** ** No deadlock: in every reachable state that is not terminal one of the sides can move. *)
+Theorem progress s : Inv s -> hterminal s = false -> exists who s', hstep psize who s = Some s'.
+Proof.
+  intros [Hf Hl Hd Hc Hr] Ht. unfold ctl in Hc. destruct (owner s) eqn:Eo.
+  - destruct Hc as (Hw & Hrr & Ho & Hb). unfold wctlA in Hw. unfold rctlA in Hrr.
+    destruct (wp s) eqn:Ew; try contradiction.
+    + exists SW. unfold hstep, wstep_internal. rewrite Ew. cbn [at_chan_w]. eauto.
+    + exists SW. unfold hstep, wstep_internal. rewrite Ew. cbn [at_chan_w].
+      destruct (copyInto _ _). eauto.
+    + destruct (rp s) eqn:Er; try contradiction.
+      * exists SR. unfold hstep, rstep_internal. rewrite Er. cbn [at_chan_r]. eauto.
+      * exists SR. unfold hstep, rstep_internal. rewrite Er. cbn [at_chan_r]. eauto.
+      * exists SW. unfold hstep, sync. rewrite Ew, Er. cbn [at_chan_w]. eauto.
+    + destruct (rp s) eqn:Er; try contradiction.
+      * exists SR. unfold hstep, rstep_internal. rewrite Er. cbn [at_chan_r]. eauto.
+      * exists SR. unfold hstep, rstep_internal. rewrite Er. cbn [at_chan_r]. eauto.
+      * exists SW. unfold hstep, sync. rewrite Ew, Er. cbn [at_chan_w]. eauto.
+  - destruct Hc as [(Hw & Hrr & Ho & Hb)|[(Ew & Er & _)|(Ew & Er & _)]].
+    + unfold wctlB in Hw. unfold rctlB in Hrr.
+      destruct (rp s) eqn:Er; try contradiction.
+      * (* RKick *) destruct (wp s) eqn:Ew; try contradiction.
+        -- exists SW. unfold hstep, wstep_internal. rewrite Ew. cbn [at_chan_w]. destruct (w_rest s); eauto.
+        -- exists SW. unfold hstep, sync. rewrite Ew, Er. cbn [at_chan_w]. eauto.
+        -- exists SW. unfold hstep, wstep_internal. rewrite Ew. cbn [at_chan_w]. eauto.
+        -- exists SW. unfold hstep, sync. rewrite Ew, Er. cbn [at_chan_w]. eauto.
+        -- exists SW. unfold hstep, sync. rewrite Ew, Er. cbn [at_chan_w]. eauto.
+      * exists SR. unfold hstep, rstep_internal. rewrite Er. cbn [at_chan_r]. eauto.
+      * exists SR. unfold hstep, rstep_internal. rewrite Er. cbn [at_chan_r]. eauto.
+      * exists SR. unfold hstep, rstep_internal. rewrite Er. cbn [at_chan_r]. unfold need. rewrite Eo.
+        destruct ((offset s <? 0) || (bufLevel s <? offset s) || (lenZ (hbuf s) <? bufLevel s)); eauto.
+      * exists SR. unfold hstep, rstep_internal. rewrite Er. cbn [at_chan_r]. destruct (offset s =? bufLevel s); eauto.
+      * (* RSendMore *) destruct (wp s) eqn:Ew; try contradiction.
+        -- exists SW. unfold hstep, wstep_internal. rewrite Ew. cbn [at_chan_w]. destruct (w_rest s); eauto.
+        -- exists SW. unfold hstep, sync. rewrite Ew, Er. cbn [at_chan_w]. eauto.
+        -- exists SW. unfold hstep, wstep_internal. rewrite Ew. cbn [at_chan_w]. eauto.
+        -- exists SW. unfold hstep, sync. rewrite Ew, Er. cbn [at_chan_w]. eauto.
+        -- exists SW. unfold hstep, sync. rewrite Ew, Er. cbn [at_chan_w]. eauto.
+    + exists SW. unfold hstep, sync. rewrite Ew, Er. cbn [at_chan_w]. eauto.
+    + unfold hterminal in Ht. rewrite Ew, Er in Ht. discriminate.
+Qed.
+
+(** ** Termination: a measure that every step decreases *)
+
+Definition restlen (s : hstate) : Z := lenZ (concat (w_rest s)).
+Definition restcnt (s : hstate) : Z := lenZ (w_rest s).
+
+Definition muW (s : hstate) : Z :=
+  match wp s with
+  | WIdle => 20 * restlen s + 20 * restcnt s + 8
+  | WRecv0 => 20 * (lenZ (w_cur s) - w_nw s + restlen s) + 20 * (1 + restcnt s) + 7
+  | WCheck => 20 * (lenZ (w_cur s) - w_nw s + restlen s) + 20 * (1 + restcnt s) + 6
+  | WRecv => 20 * (lenZ (w_cur s) - w_nw s + restlen s) + 20 * (1 + restcnt s) + 5
+  | WCopy => 20 * (lenZ (w_cur s) - w_nw s + restlen s) + 20 * (1 + restcnt s) + 4
+  | WSend => 20 * (lenZ (w_cur s) - w_nw s + restlen s) + 20 * (1 + restcnt s) + 3
+  | WAfter => 20 * (lenZ (w_cur s) - w_nw s - w_n s + restlen s) +
+              20 * (restcnt s + (if w_nw s + w_n s =? lenZ (w_cur s) then 0 else 1)) + 9
+  | WFinRecv => 3
+  | WFinSend => 2
+  | WFinWait => 1
+  | WDone => 0
+  end.
+
+Definition pcount (s : hstate) : Z := Z.max 0 (bufLevel s - offset s).
+
+Definition muR (s : hstate) : Z :=
+  match rp s with
+  | RKick => 8
+  | RCopy => if pcount s =? 0 then 7 else 10 * pcount s + 1
+  | REq => 10 * pcount s + 6
+  | RSendMore => 5
+  | RIdle => 10 * pcount s + 4
+  | RTest => 10 * pcount s + 3
+  | RRecv => 2
+  | RFin => 1
+  | RDone => 0
+  end.
+
+Definition mu (s : hstate) : Z := muW s + muR s.
+
+Lemma concat_cons_len (b : list Z) rest : lenZ (concat (b :: rest)) = lenZ b + lenZ (concat rest).
+Proof. cbn [concat]. apply lenZ_app. Qed.
+
+Ltac mu_simpl := unfold mu, muW, muR, pcount, restlen, restcnt in *; simp_st.
+
+Lemma muR_nonneg s : 0 <= muR s.
+Proof. unfold muR, pcount. destruct (rp s); try lia. destruct (_ =? 0); lia. Qed.
+
+Lemma muW_nonneg s : Inv s -> 0 <= muW s.
+Proof.
+  intros [Hf Hl Hd Hc Hr]. unfold muW, restlen, restcnt.
+  pose proof (lenZ_nonneg (w_cur s)) as Hlc. pose proof (lenZ_nonneg (w_rest s)) as Hlr.
+  pose proof (lenZ_nonneg (concat (w_rest s))) as Hlcc.
+  destruct (wp s) eqn:Ew; try lia; ctl_w Hc Ew; try lia.
+  destruct (w_nw s + w_n s =? lenZ (w_cur s)); lia.
+Qed.
+
+(** The reader part of the measure does not look at what a writer step changes. *)
+Ltac same_muR s :=
+  unfold mu; match goal with |- context [muR ?x] => change (muR x) with (muR s) end;
+  pose proof (muR_nonneg s).
+Ltac same_muW s :=
+  unfold mu; match goal with |- context [muW ?x] => change (muW x) with (muW s) end.
+
+Lemma wstep_mu s s' : Inv s -> wstep_internal s = Some s' -> 0 <= mu s' < mu s.
+Proof.
+  intros [Hf Hl Hd Hc Hr] H. unfold wstep_internal in H.
+  pose proof (lenZ_nonneg (w_cur s)) as Hlc. pose proof (lenZ_nonneg (w_rest s)) as Hlr.
+  pose proof (lenZ_nonneg (concat (w_rest s))) as Hlcc.
+  destruct (wp s) eqn:Ew; try discriminate.
+  - ctl_w Hc Ew. destruct (w_rest s) as [|b rest] eqn:Erest; inversion H; subst; clear H.
+    + same_muR s. unfold muW, restlen, restcnt. simp_st. rewrite Ew, Erest. cbn [concat lenZ length Z.of_nat]. lia.
+    + pose proof (lenZ_nonneg b). pose proof (lenZ_nonneg rest). pose proof (lenZ_nonneg (concat rest)).
+      same_muR s. unfold muW, restlen, restcnt. simp_st. rewrite Ew, Erest. rewrite concat_cons_len, lenZ_cons. lia.
+  - ctl_w Hc Ew. inversion H; subst; clear H. same_muR s. unfold muW, restlen, restcnt. simp_st. rewrite Ew. lia.
+  - ctl_w Hc Ew. unfold need in H. try rewrite Eo in H.
+    destruct (copyInto (hbuf s) (dropZ (w_nw s) (w_cur s))) as [nb n].
+    inversion H; subst; clear H. same_muR s. unfold muW, restlen, restcnt. simp_st. rewrite Ew. lia.
+  - ctl_w Hc Ew. inversion H; subst; clear H. destruct Hw as (Hw1 & Hw2 & Hw3).
+    same_muR s. unfold muW, restlen, restcnt. simp_st. rewrite Ew.
+    destruct (w_nw s + w_n s =? lenZ (w_cur s)) eqn:Eq; simp_st; lia.
+Qed.
+
+Lemma rstep_mu s s' : Inv s -> rstep_internal psize s = Some s' -> 0 <= mu s' < mu s.
+Proof.
+  intros HI H. pose proof (muW_nonneg s HI) as HW. destruct HI as [Hf Hl Hd Hc Hr].
+  unfold rstep_internal in H.
+  destruct (rp s) eqn:Er; try discriminate.
+  - inversion H; subst; clear H. same_muW s. unfold muR, pcount. simp_st. rewrite Er. lia.
+  - inversion H; subst; clear H. same_muW s. unfold muR, pcount. simp_st. rewrite Er.
+    ctl_r Hc Er.
+    + destruct (offset s >=? bufLevel s) eqn:E; [|lia]. lia.
+    + destruct (offset s >=? bufLevel s) eqn:E; [lia|].
+      destruct (Z.max 0 (bufLevel s - offset s) =? 0) eqn:E2; lia.
+  - ctl_r Hc Er. unfold need in H. rewrite Eo in H. cbv zeta in H.
+    destruct ((offset s <? 0) || (bufLevel s <? offset s) || (lenZ (hbuf s) <? bufLevel s)) eqn:Eb; [lia|].
+    inversion H; subst; clear H.
+    set (avail := takeZ (bufLevel s - offset s) (dropZ (offset s) (hbuf s))) in *.
+    assert (Hla : lenZ avail = bufLevel s - offset s).
+    { unfold avail. rewrite lenZ_takeZ, lenZ_dropZ by lia. lia. }
+    pose proof (psize_pos (r_k s)) as Hp.
+    same_muW s. unfold muR, pcount. simp_st. rewrite Er. rewrite Hla.
+    destruct (Z.max 0 (bufLevel s - offset s) =? 0) eqn:E2; lia.
+  - ctl_r Hc Er. destruct (offset s =? bufLevel s) eqn:E.
+    + unfold need in H. rewrite Eo in H. cbv zeta in H. inversion H; subst; clear H.
+      same_muW s. unfold muR, pcount. simp_st. rewrite Er. lia.
+    + inversion H; subst; clear H. same_muW s. unfold muR, pcount. simp_st. rewrite Er. lia.
+Qed.
+
+Lemma sync_mu s s' : Inv s -> sync s = Some s' -> 0 <= mu s' < mu s.
+Proof.
+  intros [Hf Hl Hd Hc Hr] H. unfold sync in H.
+  pose proof (lenZ_nonneg (w_cur s)) as Hlc. pose proof (lenZ_nonneg (w_rest s)) as Hlr.
+  pose proof (lenZ_nonneg (concat (w_rest s))) as Hlcc.
+  destruct (wp s) eqn:Ew; destruct (rp s) eqn:Er; try discriminate; inversion H; subst; clear H;
+    ctl_wr Hc Ew Er; unfold mu, muW, muR, pcount, restlen, restcnt; simp_st; rewrite ?Ew, ?Er; try lia.
+  - (* WSend, RRecv *)
+    destruct Hw as (Hw1 & Hw2 & Hw3).
+    destruct (w_nw s + w_n s =? lenZ (w_cur s)) eqn:E1; destruct (Z.max 0 (w_n s - offset s) =? 0) eqn:E2; lia.
+Qed.
+
+(** Every step that is taken decreases the measure; the measure is never negative. *)
+Theorem hstep_mu who s s' : Inv s -> hstep psize who s = Some s' -> 0 <= mu s' < mu s.
+Proof.
+  intros HI H. unfold hstep in H. destruct who.
+  - destruct (at_chan_w (wp s)); [eapply sync_mu|eapply wstep_mu]; eassumption.
+  - destruct (at_chan_r (rp s)); [eapply sync_mu|eapply rstep_mu]; eassumption.
+Qed.
+
+(** Number of scheduling decisions of [sched] in which the chosen side actually moved. *)
+Fixpoint moves (sched : list side) (s : hstate) : Z :=
+  match sched with
+  | [] => 0
+  | who :: rest =>
+    match hstep psize who s with
+    | Some s' => 1 + moves rest s'
+    | None => moves rest s
+    end
+  end.
+
+Lemma moves_nonneg : forall sched s, 0 <= moves sched s.
+Proof.
+  induction sched as [|who sched IH]; intros s; cbn [moves]; [lia|].
+  destruct (hstep psize who s); [specialize (IH h)|specialize (IH s)]; lia.
+Qed.
+
+(** No schedule, however long, makes more than [mu s] moves: neither side can go on for ever. *)
+Theorem moves_bounded : forall sched s, Inv s -> moves sched s <= mu s.
+Proof.
+  induction sched as [|who sched IH]; intros s HI; cbn [moves].
+  - pose proof (muW_nonneg s HI). pose proof (muR_nonneg s). unfold mu. lia.
+  - destruct (hstep psize who s) as [s'|] eqn:E.
+    + pose proof (hstep_mu who s s' HI E). specialize (IH s' (hstep_inv who s s' HI E)). lia.
+    + apply IH. exact HI.
+Qed.
+
+(** A scheduler that always picks a side that can move reaches the terminal state. *)
+Theorem greedy_terminates : forall fuel s, Inv s -> mu s <= Z.of_nat fuel ->
+  hterminal (hrun_greedy psize fuel s) = true.
+Proof.
+  induction fuel as [|fuel IH]; intros s HI Hm.
+  - cbn [hrun_greedy]. destruct (hterminal s) eqn:Et; [reflexivity|].
+    destruct (progress s HI Et) as (who & s' & Hs). pose proof (hstep_mu who s s' HI Hs). lia.
+  - cbn [hrun_greedy]. destruct (hstep psize SW s) as [s1|] eqn:E1.
+    + apply IH; [eapply hstep_inv; eassumption|]. pose proof (hstep_mu SW s s1 HI E1). lia.
+    + destruct (hstep psize SR s) as [s2|] eqn:E2.
+      * apply IH; [eapply hstep_inv; eassumption|]. pose proof (hstep_mu SR s s2 HI E2). lia.
+      * destruct (hterminal s) eqn:Et; [reflexivity|].
+        destruct (progress s HI Et) as (who & s' & Hs). destruct who; congruence.
+Qed.
+
 End Handover.
+
+(** * Summary, for every capacity, every split of the data, every read-size sequence and every schedule *)
+
+Lemma mu_init C writes : mu (hinit C writes) = 20 * lenZ (concat writes) + 20 * lenZ writes + 16.
+Proof. unfold mu, muW, muR, restlen, restcnt, hinit. cbn [wp rp w_rest]. lia. Qed.
+
+Theorem handover_correct C psize writes sched :
+  0 < C -> (forall k, 0 < psize k) ->
+  let s := hrun psize sched (hinit C writes) in
+  (* ownership respected, no slice panic *)
+  hfail s = None /\
+  (* what Read returned so far is a prefix of what was written *)
+  (exists rest, r_out s ++ rest = concat writes) /\
+  (* EOF only after the last byte, once, as the last return value; no negative count otherwise *)
+  (In (-1) (r_rets s) -> r_out s = concat writes /\ exists l, r_rets s = l ++ [-1] /\ Forall (fun x => 0 <= x) l) /\
+  (* no deadlock: unless both sides are done, one of them can move *)
+  (hterminal s = false -> exists who s', hstep psize who s = Some s') /\
+  (* when both are done everything has arrived *)
+  (hterminal s = true -> r_out s = concat writes) /\
+  (* no infinite execution: at most this many moves in any schedule *)
+  moves psize sched (hinit C writes) <= 20 * lenZ (concat writes) + 20 * lenZ writes + 16.
+Proof.
+  intros HC Hp s.
+  assert (HI0 : Inv C writes (hinit C writes)) by (apply Inv_init; assumption).
+  assert (HI : Inv C writes s) by (eapply hrun_inv; eauto).
+  split; [eapply inv_safe; eauto|].
+  split; [eapply inv_prefix; eauto|].
+  split; [intros Hin; eapply eof_after_last_byte; eauto|].
+  split; [intros Ht; eapply progress; eauto|].
+  split; [intros Ht; eapply terminal_complete; eauto|].
+  rewrite <- (mu_init C). eapply moves_bounded; eauto.
+Qed.
+
+(** The run of a scheduler that always moves somebody ends with both sides done. *)
+Theorem handover_terminates C psize writes fuel :
+  0 < C -> (forall k, 0 < psize k) ->
+  20 * lenZ (concat writes) + 20 * lenZ writes + 16 <= Z.of_nat fuel ->
+  let s := hrun_greedy psize fuel (hinit C writes) in
+  hterminal s = true.
+Proof.
+  intros HC Hp Hf. eapply greedy_terminates; eauto.
+  - apply Inv_init. assumption.
+  - rewrite mu_init. exact Hf.
+Qed.
